@@ -16,7 +16,8 @@ VARIABLES st, hist, res
 vars == <<st, hist, res>>
 
 OpRec(i) == [k |-> Ops[i].k, id |-> Ops[i].id, id2 |-> Ops[i].id2, n |-> Ops[i].n,
-             l |-> IF Ops[i].l >= 1 THEN Cat.pool[Ops[i].l] ELSE [rt |-> "none"]]
+             l |-> IF Ops[i].l >= 1 THEN Cat.pool[Ops[i].l] ELSE [rt |-> "none"],
+             ls |-> IF Ops[i].k = "setf" THEN <<Cat.pool[Ops[i].l], Cat.pool[Ops[i].l2]>> ELSE <<>>]
 
 \* generation guards: keep the operations that can tell something apart
 Present(s, l) == \E i \in DOMAIN s.lines : Norm(s.lines[i]) = Norm(l)
@@ -25,6 +26,7 @@ Guard(s, i) ==
   CASE op.k = "add"  -> TRUE
     [] op.k = "rm"   -> op.id \in NamesOf(s) \cup PlaceholderIds(s) \/ op.id = "zz"
     [] op.k = "disc" -> Present(s, op.l)
+    [] op.k = "setf" -> Present(s, op.l)
     [] op.k = "ren"  -> op.id \in NamesOf(s)
     [] op.k \in {"settag", "deltag"} -> op.id \in NamesOf(s)
     [] op.k = "flush" -> s.queue # <<>>
